@@ -18,8 +18,8 @@ class C13(HistProp):
         '(hidden header with live/dead magic: a foreign or repeated free / realloc aborts), arena allocator with no libc backing (a stray libc free/realloc of an arena '
         'pointer is fatal in glibc), and a forbid-all mode around the operations that must not allocate',
     ]
-    rule = ('the API histories of C04 (exhaustive short + random long) and decoder / serializer operations on the C01/C03 inputs, each run under the tagging allocator and under the '
-            'arena allocator (outputs must be identical and nothing may abort); every streaming-decode, encode, UTF-8, arithmetic operation runs with allocator requests forbidden; '
+    rule = ('the API histories of C04 (exhaustive short + random long) and decoder / serializer operations on the C01/C03 inputs, each run under the tagging allocator, under the '
+            'arena allocator (outputs must be identical and nothing may abort) and after replacing a previously installed triple that shares one or two hooks with the final one (a call to a replaced hook is fatal); every streaming-decode, encode, UTF-8, arithmetic operation runs with allocator requests forbidden; '
             'fixed-buffer serialization and size computation are checked for zero requests; copy / load / build-tag scenarios under every single-fault and fail-stop schedule followed by releasing everything (live blocks must be 0); non-trivial = any operation; distinct by (operation, result)')
 
     def histories(self, tier, rng):
@@ -63,9 +63,11 @@ class C13(HistProp):
 
     def oracle(self, tier, ctx):
         fails = []
-        for envname, env in (('tagging', None), ('arena', {'HALLOC': 'arena'})):
+        envs = [('tagging', None), ('arena', {'HALLOC': 'arena'})] + [('triple replaced (swap%d)' % i, {'HALLOC': 'swap%d' % i}) for i in (1, 2, 3, 4)]
+        for envname, env in envs:
             self._env = env
             fails += [dict(f, why='[%s allocator] %s' % (envname, f['why'])) for f in super().oracle(tier, ctx)]
+            if fails and envname.startswith('triple'): break
         # value-level operations: identical output under both allocators, no abort, SER reports zero requests
         rng = core.Rng(self.id); self._all(tier, rng)
         lines = self.value_lines(tier, rng)
